@@ -269,9 +269,11 @@ myth_tls_key_allocator_alloc(myth_tls_key_allocator_t * s,
 			     myth_tls_destructor_fun_t destructor) {
   while (1) {
     /* try to pull the element from the free list */
+    MYTH_VERIF_POINT(MYTH_VS_KEY_RD);
     myth_tls_key_entry_t * ke = s->free;
     if (ke) {
       myth_tls_key_entry_t * next = ke->next;
+      MYTH_VERIF_POINT(MYTH_VS_KEY_CAS);
       if (__sync_bool_compare_and_swap(&s->free, ke, next)) {
 	/* mark the key as used */
 	ke->next = (myth_tls_key_entry_t *)-1;
@@ -298,8 +300,10 @@ myth_tls_key_allocator_dealloc(myth_tls_key_allocator_t * s, int key) {
   myth_tls_destructor_fun_t f = ke->destructor;
   while (1) {
     /* try to push the cell to the free list */
+    MYTH_VERIF_POINT(MYTH_VS_KEY_RD);
     myth_tls_key_entry_t * head = s->free;
     ke->next = head;
+    MYTH_VERIF_POINT(MYTH_VS_KEY_CAS);
     if (__sync_bool_compare_and_swap(&s->free, head, ke)) {
       return f;
     }
